@@ -12,6 +12,7 @@ from ..model import FuncInfo, Repo
 from ..report import Report
 from ..tables import kwargs_of, typedef_table
 from ..util import AnalysisError, call_name, chain, const_value, is_const, names_loaded, norm, parent_map, short, walk_body
+from .compiled import shape_of
 
 # ---------------------------------------------------------------------------------------------------------------
 # R1: the built-in type table against an independent width / signedness oracle
@@ -447,6 +448,7 @@ def provenance_rule(repo: Repo, rep: Report, rid: str) -> None:
     rep.floor(rid, "provenance obligations", n, 11)
 
 
+@shape_of("layout")
 def calculator_rule(repo: Repo, rep: Report, rid: str) -> None:
     rep.rule(rid, "layout calculator ordering: per-field round-up precedes every consumer of the offset, struct alignment is the running "
                   "max on every iteration, fields advance by their length, tail padding uses the struct alignment")
